@@ -318,7 +318,8 @@ def fme(x):
     """Coq term of the float x through its exact mantissa / exponent"""
     m, e = math.frexp(x)
     mi = int(m * 2 ** 53)
-    return f"(fme {zint(mi)} {zint(e - 53)})"
+    zz = lambda v: str(v) if v >= 0 else f"({v})"
+    return f"(fme {zz(mi)} {zz(e - 53)})"
 
 
 class StepCounter:
